@@ -10,7 +10,7 @@ import sandbox
 import wire
 
 ID = "C19"
-TABLES = ["functions"]
+TABLES = ["functions", "schema"]
 EXTRA_TARGETS = ["theories/Resolver/GenChecks.vo", "theories/Findings/F11F13.vo", "theories/Findings/F26.vo"]
 GEN_OBLIGATIONS = ["GenChecks.functions_table_ok (IMPLEMENTED_FUNCTIONS = the names check_if_valid_function accepts)"]
 BUDGET = {"quick": (6, 75), "thorough": (16, 780)}
